@@ -8,6 +8,7 @@ import numpy as np
 
 from .. import refmodel as R
 from .. import gen as G
+from .. import universal as U
 from ..exact import Unsupported
 from ..storejudge import decode_store, in_core_domain, STORE_OPS, underflows_to_zero, UNDERFLOW_KEY
 from . import c01
@@ -183,12 +184,23 @@ def make_judges(ctx):
                 ctx.floor_hit(('rel', mode, k[0]))
             if k[0] in ('monotone', 'idempotent-noflag'):
                 ctx.floor_hit((k[0], k[1]))
-    return [rel_judge]
+    def frame_judge(ev):
+        """a store / conversion writes its destination only: a fixed-point input (and the parent behind it) holds its own representable value afterwards, with no
+        flag; the object returned by like() shares nothing with the template"""
+        if ev.exc is not None or (ev.op not in STORE_OPS and ev.op not in ('like', 'resize')):
+            return
+        for p_ in U.u2_frame_problems(ev, ctx.mon.Fxp):
+            ctx.violation('source_changed', p_[1], ev, key='frame.source')
+        if ev.op == 'like':
+            for p_ in U.u2_alias_problems(ev, ctx.mon.Fxp):
+                ctx.violation('result_shares_state', p_[1], ev, key='frame.like_alias')
+            ctx.floor_hit(('like-frame',))
+    return [rel_judge, frame_judge]
 
 
 def floors(tier):
     cells = [('rel', m, 'bound') for m in G.ROUNDINGS] + [('rel', 'around', 'tie-even')]
-    cells += [('monotone', m) for m in G.ROUNDINGS] + [('idempotent-noflag', m) for m in G.ROUNDINGS] + [('idempotent-indexed',), ('restore-int',), ('idempotent-like-flagged-template',), ('wide-fixed-point-input',), ('restore-after-raw-route',), ('contract-through-view',), ('contract-after-resize',)]
+    cells += [('monotone', m) for m in G.ROUNDINGS] + [('idempotent-noflag', m) for m in G.ROUNDINGS] + [('idempotent-indexed',), ('restore-int',), ('idempotent-like-flagged-template',), ('wide-fixed-point-input',), ('restore-after-raw-route',), ('contract-through-view',), ('contract-after-resize',), ('like-frame',), ('fixed-point-array-to-more-fraction-bits',)]
     return cells
 
 
@@ -343,6 +355,25 @@ def run_case(case, ctx):
                         R.dtype_fxp(s, w + up, nf + up), R.dtype_fxp(*wf), r, o, how, ks, got, r, want), key='relation.resize')
                 ctx.judged(('resize-drops-fraction-bits', r, o, how), True, None)
                 ctx.floor_hit(('contract-after-resize',))
+    except Exception:
+        pass
+    # fixed-point arrays handed over to formats with MORE fraction bits, by every route, and like() of a template: the source (and the template) stay as they were
+    try:
+        lo_u, hi_u = R.code_range(s, w)
+        srcu = Fxp(np.array([rng.randint(lo_u, hi_u) for _ in range(3)]), s, w, nf, raw=True)
+        upb = rng.randint(1, 6)
+        if w + upb <= 52 and -8 <= nf + upb <= w + upb + 8:
+            Fxp(srcu, s, w + upb, nf + upb, rounding=r, overflow=o)
+            du = Fxp(np.zeros(3), s, w + upb, nf + upb, rounding=r, overflow=o)
+            du.set_val(srcu)
+            du.equal(srcu)
+            du(srcu)
+            tu = Fxp(None, s, w + upb, nf + upb, rounding=r, overflow=o)
+            srcu.like(tu)
+            Fxp(0.0, s, w, nf).like(tu)
+            eu = srcu[0:2]
+            eu.resize(s, w + upb, nf + upb)
+            ctx.floor_hit(('fixed-point-array-to-more-fraction-bits',))
     except Exception:
         pass
     # inputs given as fixed-point values with more fraction bits than the destination (both signednesses)
